@@ -44,6 +44,7 @@ def run(ctx: Ctx) -> None:
     ctx.assume("task functions are deterministic", "cache_scope NONE and prov=False jobs are exempt")
     schedlab.suite(ctx, ON, n_random_progs=ctx.pick(4, 30), n_sim=ctx.pick(80, 1500),
                    n_random_hist=ctx.pick(40, 800), corrupt=_corrupt, tag="c06")
+    none_results(ctx)
     # third trace source: the repository's own tests, recorded with the real thread / process executors by the
     # pytest plugin (harness/pytest_trace.py): every Scheduler.run must hand each call key to an executor once
     mods = ctx.pick(["test_limits.py", "test_partial_task.py", "test_functools.py"],
@@ -62,5 +63,51 @@ def run(ctx: Ctx) -> None:
                           {"test": t["hdr"]["test"], "clause": why, "events": t["evs"]})
 
 
+def none_results(ctx: Ctx) -> None:
+    """A call whose result is None, made again from another parent after the first one finished (evallib.none_twice):
+    the finished twin answers it (CSE), nothing is handed to an executor twice -- with default caching, for a
+    cache=False task and in a run(cache=False) execution.  Judged by the `once` clause of the contract."""
+    import os
+    import uuid
+
+    from .. import evallib as L, simloop
+
+    traces, meta = [], []
+    for nc in (False, True):
+        for run_cache in (True, False):
+            for kind, ch in [("policy", simloop.PolicyChooser(late, newest)) for late in (False, True) for newest in (False, True)] \
+                    + [("random", simloop.RandomChooser(ctx.rng, 0.5))]:
+                db = simloop.clone_db(ctx.scratch, f"none_{uuid.uuid4().hex[:6]}.db")
+                bk = simloop.open_backend(db)
+                try:
+                    s, d = simloop.make_scheduler(bk, limits={}, chooser=ch)
+                    out = simloop.run_controlled(s, d, L.none_twice(1, nc), cache=run_cache, execution_id=str(uuid.uuid4()))
+                finally:
+                    simloop.close_backend(bk)
+                    try:
+                        os.unlink(db)
+                    except OSError:
+                        pass
+                ctx.require(out["outcome"] == "value" and out["value"] == [None, None], f"none_twice failed: {out}")
+                rec = {"mode": "real", "cache": run_cache, "limits": {}, "out": dict(out, value=0), "events": d.events,
+                       "digest": {"calls": [], "args": []}}
+                traces.append(schedlab.contract_trace({"res": []}, rec, None, None, ""))
+                meta.append({"task_cache": not nc, "run_cache": run_cache, "schedule": kind,
+                             "submitted": [e["task"] for e in d.events if e["ev"] == "submit"]})
+                ctx.count_impl_trace()
+                ctx.count_eval()
+    ctx.distinct(["none-results"])
+    verdicts = schedlab.validate(ctx, traces, ["once"], "c06_none")
+    for (acc, pos, why), m in zip(verdicts, meta):
+        if not acc:
+            ctx.violation(f"a call whose result is None was handed to an executor again although its twin had finished: "
+                          f"{why} (task cache={m['task_cache']}, run cache={m['run_cache']}, {m['schedule']} schedule; "
+                          f"submitted {m['submitted']})", {"kind": "none-results", **m})
+    ctx.note("none_result_duplicates", len(traces))
+
+
 def replay(ctx: Ctx, rec: dict) -> None:
+    if rec["replay"].get("kind") == "none-results":
+        none_results(ctx)
+        return
     schedlab.replay_record(ctx, rec, ON)
